@@ -522,10 +522,17 @@ func (g *TGen) stmt() []*Node {
 			}
 			if vs := g.varsOf(TArr); len(vs) > 0 && g.chance(2, "arrset") {
 				v := vs[g.intn(len(vs), "arr")]
+				if iv := g.pickVar(TInt); iv != nil && g.chance(3, "varindex") {
+					return []*Node{Infix("=", Index(Id(v.name), iv), g.Expr(TInt, 1))}
+				}
 				return []*Node{Infix("=", Index(Id(v.name), Int(int64(g.intn(4, "i")-1))), g.Expr(TInt, 1))}
 			}
 			if vs := g.varsOf(TMap); len(vs) > 0 {
 				v := vs[g.intn(len(vs), "map")]
+				if iv := g.pickVar(TInt); iv != nil && g.chance(4, "varkey") {
+					// an integer variable (maybe a parameter or loop variable) as key
+					return []*Node{Infix("=", Index(Id(v.name), iv), g.Expr(TInt, 1))}
+				}
 				key := rapid.SampledFrom([]string{"k", "a", "z"}).Draw(g.t, "key")
 				if g.chance(2, "dotset") {
 					return []*Node{Infix("=", Dot(Id(v.name), key), g.Expr(TInt, 1))}
